@@ -452,7 +452,9 @@ func coqSeg(s seg) string {
 	return []string{"SBody", "SIdent", "SExpr"}[s.T] + " " + hx.Str(s.S)
 }
 
-func emitCase(sh *sharder, tc tcase, out string, hasErr bool) {
+// clean: the driver built the template from trees for which the intended tree of the specification must exist
+// (checked by the model run: proofs/LegacyProofs.v check_hyp)
+func emitCase(sh *sharder, tc tcase, out string, hasErr bool, clean bool) {
 	segs := scanReal(tc.Template, expressions.ContextTopLevels)
 	names := map[string]bool{}
 	for _, s := range segs {
@@ -481,10 +483,10 @@ func emitCase(sh *sharder, tc tcase, out string, hasErr bool) {
 			}
 		}
 	}
-	coq := fmt.Sprintf("{| k_segs := %s; k_ctx := [%s]; k_default_to_self := %s; k_url_encode := %s; k_raw_dates := %s; k_out := %s; k_err := %s; k_exprs := [%s] |}",
+	coq := fmt.Sprintf("({| k_segs := %s; k_ctx := [%s]; k_default_to_self := %s; k_url_encode := %s; k_raw_dates := %s; k_out := %s; k_err := %s; k_exprs := [%s] |}, %s)",
 		hx.List(segs, coqSeg), strings.Join(pairs, "; "), hx.Bool(tc.Options.DefaultToSelf), hx.Bool(tc.Options.URLEncode),
-		hx.Bool(tc.Options.RawDates), hx.Str(out), hx.Bool(hasErr), strings.Join(exprs, "; "))
-	sh.add(coq, tc, map[string]any{"out": out, "err": hasErr})
+		hx.Bool(tc.Options.RawDates), hx.Str(out), hx.Bool(hasErr), strings.Join(exprs, "; "), hx.Bool(clean && !hasErr))
+	sh.add(coq, tc, map[string]any{"out": out, "err": hasErr, "clean": clean && !hasErr})
 }
 
 // sharder writes cases_C17_<nnn>.v files
@@ -496,8 +498,8 @@ type sharder struct {
 	nfile int
 }
 
-const header = "From Coq Require Import List NArith.\nFrom Verif Require Import model.LegacyTy model.LegacySyntax model.Legacy model.LegacyCorr.\nImport ListNotations.\nOpen Scope N_scope.\nDefinition cases : list lcase := ["
-const footer = "].\nDefinition M := Eval vm_compute in mismatches cases.\nPrint M."
+const header = "From Coq Require Import List NArith.\nFrom Verif Require Import model.LegacyTy model.LegacySyntax model.Legacy model.LegacyCorr proofs.LegacyProofs.\nImport ListNotations.\nOpen Scope N_scope.\nDefinition cases : list (lcase * bool) := ["
+const footer = "].\nDefinition M := Eval vm_compute in mismatches2 cases.\nPrint M."
 
 func (s *sharder) add(coq string, input, impl any) {
 	if s.file == nil {
@@ -679,7 +681,7 @@ func main() {
 		if hasErr {
 			res.Dist("migrate-error")
 		}
-		emitCase(sh, tc, out, hasErr)
+		emitCase(sh, tc, out, hasErr, clean)
 		oracleBody(res, tc, out)
 		if clean && !hasErr {
 			oracleParses(res, tc, trees, out)
@@ -727,9 +729,24 @@ func main() {
 		}
 	}
 
+	// two further defects found by the reference interpreter (kept out of the typed generator; probed here with
+	// fixed values so that they are reported on every run): see KNOWN_FINDINGS.txt
+	for _, c := range [][3]string{
+		{`@(DAY("2020-03-05") + 1)`, "6", "additive:date-part-inferred-as-date"},
+		{`@(MONTH("2020-03-05") - 1)`, "2", "additive:date-part-inferred-as-date"},
+		{`@(WORD("bee cat dog", -1))`, "dog", "decremented:negative-literal"},
+	} {
+		res.OracleChecks++
+		out, hasErr, _ := migrateReal(c[0], options{})
+		got, evErr := evalMigrated(out, nil)
+		if hasErr || evErr || got != c[1] {
+			res.Fail(c[2], map[string]any{"template": c[0]}, fmt.Sprintf("legacy %q denotes %q; migrated %q evaluates to %q (evaluation error %v)", c[0], c[1], out, got, evErr))
+		}
+	}
+
 	if o.Replay == "" {
 		// gen
-		n := o.Count(500, 20000)
+		n := o.Count(800, 30000)
 		rg := r.Fork("gen")
 		for i := 0; i < n; i++ {
 			g := &genCtx{r: rg, clean: rg.Chance(2, 3)}
@@ -744,7 +761,9 @@ func main() {
 					sb.WriteString(randText(rg, bodyAlphabet, 5, false))
 				}
 				if rg.Chance(1, 6) {
-					sb.WriteString("@" + hx.Pick(rg, refNames))
+					// an identifier, followed by a character that cannot continue it (otherwise the following body
+					// text becomes part of the path and the case is about an unknown context path)
+					sb.WriteString("@" + hx.Pick(rg, refNames) + hx.Pick(rg, []string{" ", ",", "!", " ", ")", "?"}))
 				} else {
 					t := g.tree(rg.Range(1, 4))
 					trees = append(trees, t)
@@ -776,7 +795,7 @@ func main() {
 		}
 
 		// typed
-		n = o.Count(600, 30000)
+		n = o.Count(1500, 60000)
 		rt := r.Fork("typed")
 		compared := 0
 		for i := 0; i < n; i++ {
@@ -816,7 +835,7 @@ func main() {
 		res.Notes = append(res.Notes, fmt.Sprintf("value oracle: %d of %d typed trees inside the reference domain", compared, n))
 
 		// literals
-		n = o.Count(400, 20000)
+		n = o.Count(600, 30000)
 		rl := r.Fork("literal")
 		for i := 0; i < n; i++ {
 			s := randText(rl, litAlphabet, 8, rl.Chance(3, 4))
